@@ -536,7 +536,13 @@ impl WriteBackend for OpenDALBackend {
     ) -> RusticResult<()> {
         trace!("writing tpe: {tpe:?}, id: {id}");
         let filename = self.path(tpe, id);
-        _ = self.operator.write(&filename, content.into_vec()).map_err(|err| {
+        // opendal's non-contiguous buffer does not advance over empty pieces
+        let content: Vec<_> = content
+            .into_vec()
+            .into_iter()
+            .filter(|piece| !piece.is_empty())
+            .collect();
+        _ = self.operator.write(&filename, content).map_err(|err| {
             RusticError::with_source(
                 ErrorKind::Backend,
                 "Writing file `{path}` failed in the backend. Please check if the given path is correct.",
